@@ -15,7 +15,7 @@ RULE = ("Item trees over synthetic stack-item types (unwrap result: None / singl
         "iterator / empty) whose frames come from a pool of 64 real frames with distinct code objects, each with a "
         "table-driven elaborate_frame result (None / PRUNE / [] / replacement by item(s) / raw frame + item / insertion "
         "(item, next_inner) / bare next_inner), generated recursively by Hypothesis so that replacements and insertions "
-        "bring sub-trees whose frames have hooks of their own. Core space: right-nested trees with single-item insertions "
+        "bring sub-trees whose frames have hooks of their own. Balanced space: 2-4 wrappers side by side, each unwrapping directly to 1-3 frames (all equally deep; any simple hook or single-frame replacement). Core space: right-nested trees with single-item insertions "
         "(any hook anywhere). Order space: arbitrary nestings, None elements, multi-item and raw-frame insertions, with only "
         "None/next_inner/insert hooks. Plus the fixpoint-guard family: self-returning item, 2-cycle, wrapper chains of "
         "length 0..90 (must succeed) and >= 150 (must end with the 'unwrapped more than 100 times' error). Executed on "
@@ -83,6 +83,17 @@ def order_shapes():
                                   "elems": st.lists(st.sampled_from([{"e": ["none"]}, {"e": ["self"]}, None]),
                                                     min_size=0, max_size=3)})
     return st.recursive(base, _order_node, max_leaves=12)
+
+
+def balanced_shapes():
+    """several wrappers side by side, each unwrapping to frames directly: every frame sits equally deep, so a prune or a
+    replacement issued by any of them removes ALL the frames that follow, also those that come out of a later wrapper"""
+    elab = st.sampled_from(SIMPLE_ELABS + [["replace", ["FRAME"]], ["replace1", "FRAME"], ["replace_tuple", ["FRAME"]]])
+    group = st.fixed_dictionaries({"u": st.sampled_from(["tuple", "list", "iter", "one"]),
+                                   "frames": st.lists(elab.map(lambda e: {"e": e}), min_size=1, max_size=3),
+                                   "leaf": st.booleans()})
+    return st.fixed_dictionaries({"u": st.sampled_from(["tuple", "list", "iter"]),
+                                  "groups": st.lists(group, min_size=2, max_size=4)})
 
 
 # ------------------------------------------------------------------------------------ numbering
@@ -169,6 +180,16 @@ class Numberer:
 
 def make_case(space, shape):
     nb = Numberer()
+    if space == "balanced":
+        groups = []
+        last = len(shape["groups"]) - 1
+        for gi, g in enumerate(shape["groups"]):
+            ch = [n for n in (nb.frame(fr["e"]) for fr in g["frames"]) if n is not None]
+            if g.get("leaf") and gi == last:
+                ch.append({"name": nb.item_name(), "u": "none", "ch": []})
+            u = g["u"] if (g["u"] != "one" or len(ch) == 1) else "tuple"
+            groups.append({"name": nb.item_name(), "u": u if ch else "empty", "ch": ch})
+        return {"space": space, "root": {"name": nb.item_name(), "u": shape["u"], "ch": groups}, "elab": nb.elab}
     root = nb.core(shape) if space == "core" else nb.order(shape)
     return {"space": space, "root": root, "elab": nb.elab}
 
@@ -401,7 +422,8 @@ def shard(arg):
             out.note_case(g, g["guard"] != "chain" or g.get("n", 0) >= 2, classes=["guard." + g["guard"]], n_eval=len(interps))
             if v:
                 out.violation(v[0]["desc"], g, v[0]["interp"], origin="guard")
-        for space, strat, n in (("core", core_shapes(), arg["n_core"]), ("order", order_shapes(), arg["n_order"])):
+        for space, strat, n in (("core", core_shapes(), arg["n_core"]), ("order", order_shapes(), arg["n_order"]),
+                                ("balanced", balanced_shapes(), arg["n_order"])):
             if out.violations or n <= 0:
                 continue
             fail = hyp_search(strat.map(lambda s, space=space: make_case(space, s)),
